@@ -77,7 +77,7 @@ def run(c):
             "confDeposit", "confWithdraw", "withFee", "swaps",
             "foreignCoinAttempts", "foreignAppCoinAttempts", "foreignDepositAttempts", "poolIdNePairId", "idsPairwiseDistinct",
             "rangedDepositPoolIdNePairId"]
-    if any(stats.get(k, 0) == 0 for k in need):
+    if not c.violations and any(stats.get(k, 0) == 0 for k in need):   # a violation on real-code states is a verdict whatever the coverage
         raise vlib.NoVerdict("vacuous run: %s" % stats)
     return c.finish("model_checking", dict(
         states=states, transitions=trans, traces_validated_against_impl=nodes_total, model_configs=names, antecedents=stats, exhaustive=True,
